@@ -171,3 +171,24 @@ REGISTRY["C02"] = {
         {"name": "TestC02Waiters", "checks": {"quick": 120, "thorough": 4000}, "shards": {"quick": 16, "thorough": 16}, "gomaxprocs": [4, 2, 16, 1]},
     ],
 }
+
+EVENT_TRUST = ("Trusted: the reference token game incl. its event rules (harness/model/events.go), the quiescence detector, schema.Parse. Concurrent (burst) "
+               "stimuli are accepted if the observation equals the model outcome of any serialisation of the burst.")
+
+REGISTRY["C11"] = {
+    "pkg": "props/c11",
+    "level": "exploration",
+    "level_text": ("rapid-drawn processes with 1..3 intermediate catch events (signal, message with and without operationRef; shared references allowed) in "
+                   "sequence, in parallel branches, or on exclusive branches of which only one is taken, optionally behind a task; scripts of up to 12 stimuli "
+                   "mixing task answers, matching / non-matching / wrong-kind / wrong-operation events (up to 8, more than any node inbox holds) and bursts of two "
+                   "concurrent events. After every stimulus: quiescence; every ConsumeEvent call must have returned (parked at the fixpoint = blocks forever); the "
+                   "new task requests must be exactly those of the listeners the model releases (each waiting token once per delivered event, nothing for "
+                   "non-matching or not-armed deliveries); completion iff the model is empty."),
+    "level_note": EVENT_TRUST,
+    "technique": "rapid property test over generated event/answer scripts, lock-step differential against the token-game model, stuck detection by goroutine snapshot",
+    "rule": ("Distinct = descriptor (shape, catch definitions, script, perturbation seed). Non-trivial = >=2 events delivered of which at least one released a listener and at least one had no effect "
+             "(non-matching or nothing armed), or a catch event on a branch that is never taken is present."),
+    "tests": [
+        {"name": "TestC11Delivery", "checks": {"quick": 150, "thorough": 5000}, "shards": {"quick": 16, "thorough": 16}, "gomaxprocs": [4, 2, 16, 1]},
+    ],
+}
